@@ -36,7 +36,7 @@ def STRIDE(step, a, b):
 
 
 def RUN(start, length):
-    return (1 << 37) | (start << 16) | length
+    return (1 << 60) | (start << 16) | length
 
 
 ONE = 0x3FF0000000000000
@@ -61,7 +61,7 @@ def gen_cases(rng, tier):
               [rng.randrange(1000) for _ in range(2000)]]
     for v in smalls + larges:
         a("oom_dict_build L %s" % lst(v))
-        for api in ("encode", "size", "stats", "decode", "decode_into"):
+        for api in ("encode", "size", "stats", "ratio", "decode", "decode_into"):
             a("oom_dict_%s %s" % (api, lst(v)))
     # Build on a dictionary that already grew / did not grow
     a("oom_dict_build %s %s" % (lst(range(100)), lst(range(40))))
@@ -96,6 +96,9 @@ def gen_cases(rng, tier):
             for sh in (shapes if big else [shapes[(prec + mode) % len(shapes)], shapes[(prec * 3 + mode + 1) % len(shapes)], specials]):
                 a("oom_float_encode %s %d %d" % (lst(sh), prec, mode))
                 a("oom_float_decode %s %d %d" % (lst(sh), prec, mode))
+
+    for errbits in (0x3E112E0BE826D695, 0x3F50624DD2F1A9FC, 0x3FA999999999999A, 0x3FD0000000000000):   # 1e-9 1e-3 0.05 0.25
+        a("oom_float_encode_auto %s %d %d" % (lst(shapes[2]), errbits, errbits % 3))
 
     # -------------------------------------------------------------- adaptive
     uq = [[9], [1, 2], [4, 4], [1, 2, 2, 3], [1, 2, 4, 3], list(range(300)), [rng.randrange(20) for _ in range(200)],
@@ -232,7 +235,8 @@ def gen_bitmap(rng, tier):
     return out
 
 
-APIS = ["oom_dict_create", "oom_dict_build", "oom_dict_encode", "oom_dict_size", "oom_dict_stats", "oom_dict_decode",
+APIS = ["oom_dict_create", "oom_dict_build", "oom_dict_encode", "oom_dict_size", "oom_dict_stats", "oom_dict_ratio",
+        "oom_float_encode_auto", "oom_dict_decode",
         "oom_dict_decode_into", "oom_pfor_threshold", "oom_pfor_encode", "oom_float_encode", "oom_float_decode",
         "oom_adp_unique", "oom_adp_analyze", "oom_adp_encode_with", "oom_adp_encode", "oom_adp_decode",
         "oom_bm_create", "oom_bm_clone", "oom_bm_add", "oom_bm_remove", "oom_bm_add_many", "oom_bm_add_range",
